@@ -23,6 +23,7 @@ func runC16(c *Ctx) {
 	ruleBufSize(c, a, "BUFSIZE") // "its wire size": a datagram cut short by a small buffer is reported with the wrong size
 	ruleClientReport(c, a)
 	ruleTargetReport(c, a)
+	ruleCountsOne(c, "WIRING") // UDP byte counters go through the same helper: an amount of 1 is counted
 	ruleArityAll(c, "ARITY")
 	ruleDirWiring(c, "WIRING")
 	ruleServiceOptions(c, "WIRING", "service.WithMetrics", "its datagrams are relayed but never reported")
